@@ -378,7 +378,7 @@ example :
 metric, weights with one zero entry, `nclip = 3`, `nsigma = 2`) returns, with two effective
 iterations, `fitmask` inside `wmask`, and as many residuals as retained points -/
 example :
-    (match iterLinearFitSq (K := ℚ) (1/1000000) .shift (exObs ++ [⟨50, 50, 0, 0⟩])
+    (match iterLinearFitSq (K := ℚ) (1/1000000) (1/4503599627370496) .shift (exObs ++ [⟨50, 50, 0, 0⟩])
             (some [1, 1, 1, 1, 1, 1, 1, 1, 1, 1, 0]) none none (some 3) (some 2) false with
      | .ok r => r.effNclip == 2 && r.resids.length == 8
                 && r.fitmask == [true, true, true, true, true, true, true, true, false, false, false]
